@@ -129,12 +129,20 @@ theorem C17_unchecked_hits_led0 (cfg : Config) (im : List (Nat × Nat)) (l : Lis
   unfold paintAction
   simp [hunbound, h0, setAt, hl]
 
-/-- **active**: every LED of a key at the pitch of a held key shows the active colour -/
+/-- **active**: every LED of a key whose transposed pitch (`k + offset`, in the integers) is the pitch of a note the device
+    has sounding shows the active colour -/
 theorem C17_active (d : Dev) (devName : String) (leds : List String) (shifted : RGB × RGB × RGB) (m : Mapping)
     (hm : d.curMap = some m) (held : Code × (Nat × Nat)) (hheld : held ∈ d.noteTr)
-    (code : Nat) (hcode : code ∈ keysWithNote m (baseOf held.2.1 (d.semitone + d.octave * 12)))
+    (code k : Nat) (hcode : code ∈ keysWithNote m k) (hk127 : k ≤ 127)
+    (hk : (k : Int) + (d.semitone + d.octave * 12) = (held.2.1 : Int))
     (i : Nat) (hi : alookup code (indexMap leds) = some i) :
     ∃ l, frame true d devName leds shifted = .ok l ∧ l[i]? = some d.cfg.colors.active := by
+  have hb : baseI held.2.1 (d.semitone + d.octave * 12) = (k : Int) := by unfold baseI; omega
+  have hok : baseOk held.2.1 (d.semitone + d.octave * 12) = true := by
+    unfold baseOk; rw [hb]; simp; omega
+  have hof : baseOf held.2.1 (d.semitone + d.octave * 12) = k := by unfold baseOf; rw [hb]; simp
+  have hheld' : held ∈ ownOn d (d.semitone + d.octave * 12) := by
+    unfold ownOn; exact List.mem_filter.mpr ⟨hheld, hok⟩
   unfold frame
   rw [hm]
   simp only
@@ -144,9 +152,9 @@ theorem C17_active (d : Dev) (devName : String) (leds : List String) (shifted : 
     ⟨l0, e0, hl0, by intro j hj; cases hj⟩
   obtain ⟨S', ⟨l, e1, hl, hs⟩, -, g3⟩ :=
     foldNotes_good leds rfl m d.cfg.colors.active (fun (p : Code × (Nat × Nat)) => baseOf p.2.1 (d.semitone + d.octave * 12))
-      d.noteTr [] _ hg
+      (ownOn d (d.semitone + d.octave * 12)) [] _ hg
   refine ⟨l, e1, ?_⟩
-  exact hs i (g3 held hheld code hcode i hi) (indexMap_lt leds code i hi)
+  exact hs i (g3 held hheld' code (by rw [hof]; exact hcode) i hi) (indexMap_lt leds code i hi)
 
 
 /-! ### refinement to a per-LED specification -/
@@ -163,16 +171,16 @@ theorem C17_refinement (d : Dev) (devName : String) (leds : List String) (shifte
 
 /-- nothing is highlighted on LED `i` -/
 def Unlit (d : Dev) (leds : List String) (m : Mapping) (i : Nat) : Prop :=
-  lit (indexMap leds) m (fun (p : Code × (Nat × Nat)) => baseOf p.2.1 (d.semitone + d.octave * 12)) d.noteTr i = false ∧
+  lit (indexMap leds) m (fun (p : Code × (Nat × Nat)) => baseOf p.2.1 (d.semitone + d.octave * 12)) (ownOn d (d.semitone + d.octave * 12)) i = false ∧
   ∀ ch, lit (indexMap leds) m (fun (p : Nat × Nat) => baseOf p.2 (d.semitone + d.octave * 12))
-    (d.ext.filter (fun p => p.1 = ch)) i = false
+    (extOn d ch (d.semitone + d.octave * 12)) i = false
 
 theorem highlight_unlit (d : Dev) (leds : List String) (m : Mapping) (base : RGB) (i : Nat) (h : Unlit d leds m i) :
     highlight d leds m base i = base := by
   unfold highlight
   simp only [h.1, h.2 d.channel]
   have : (List.range 16).find? (fun ch => lit (indexMap leds) m (fun (p : Nat × Nat) => baseOf p.2 (d.semitone + d.octave * 12))
-      (d.ext.filter (fun p => p.1 = ch)) i) = none := by
+      (extOn d ch (d.semitone + d.octave * 12)) i) = none := by
     apply List.find?_eq_none.mpr
     intro ch _; simp [h.2 ch]
   simp [this]
@@ -244,9 +252,9 @@ theorem C17_unavailable (d : Dev) (devName : String) (leds : List String) (shift
     pitch, shows the external colour -/
 theorem C17_external (d : Dev) (devName : String) (leds : List String) (shifted : RGB × RGB × RGB) (m : Mapping)
     (hm : d.curMap = some m) (i : Nat) (hi : i < leds.length)
-    (hown : lit (indexMap leds) m (fun (p : Code × (Nat × Nat)) => baseOf p.2.1 (d.semitone + d.octave * 12)) d.noteTr i = false)
+    (hown : lit (indexMap leds) m (fun (p : Code × (Nat × Nat)) => baseOf p.2.1 (d.semitone + d.octave * 12)) (ownOn d (d.semitone + d.octave * 12)) i = false)
     (hext : lit (indexMap leds) m (fun (p : Nat × Nat) => baseOf p.2 (d.semitone + d.octave * 12))
-      (d.ext.filter (fun p => p.1 = d.channel)) i = true) :
+      (extOn d d.channel (d.semitone + d.octave * 12)) i = true) :
     ∃ l, frame true d devName leds shifted = .ok l ∧ l[i]? = some d.cfg.colors.activeExternal := by
   obtain ⟨base, l, -, hl, hlen, -, hs⟩ := C17_refinement d devName leds shifted m hm
   refine ⟨l, hl, ?_⟩
@@ -258,14 +266,14 @@ theorem C17_external (d : Dev) (devName : String) (leds : List String) (shifted 
     the lowest MIDI-input channel that has a note there -/
 theorem C17_other_channel (d : Dev) (devName : String) (leds : List String) (shifted : RGB × RGB × RGB) (m : Mapping)
     (hm : d.curMap = some m) (i : Nat) (hi : i < leds.length)
-    (hown : lit (indexMap leds) m (fun (p : Code × (Nat × Nat)) => baseOf p.2.1 (d.semitone + d.octave * 12)) d.noteTr i = false)
+    (hown : lit (indexMap leds) m (fun (p : Code × (Nat × Nat)) => baseOf p.2.1 (d.semitone + d.octave * 12)) (ownOn d (d.semitone + d.octave * 12)) i = false)
     (hcur : lit (indexMap leds) m (fun (p : Nat × Nat) => baseOf p.2 (d.semitone + d.octave * 12))
-      (d.ext.filter (fun p => p.1 = d.channel)) i = false)
+      (extOn d d.channel (d.semitone + d.octave * 12)) i = false)
     (ch : Nat) (hch : ch < 16)
     (hlit : lit (indexMap leds) m (fun (p : Nat × Nat) => baseOf p.2 (d.semitone + d.octave * 12))
-      (d.ext.filter (fun p => p.1 = ch)) i = true)
+      (extOn d ch (d.semitone + d.octave * 12)) i = true)
     (hmin : ∀ c < ch, lit (indexMap leds) m (fun (p : Nat × Nat) => baseOf p.2 (d.semitone + d.octave * 12))
-      (d.ext.filter (fun p => p.1 = c)) i = false) :
+      (extOn d c (d.semitone + d.octave * 12)) i = false) :
     ∃ l, frame true d devName leds shifted = .ok l ∧ l[i]? = some (chanColor ch) := by
   obtain ⟨base, l, -, hl, hlen, -, hs⟩ := C17_refinement d devName leds shifted m hm
   refine ⟨l, hl, ?_⟩
@@ -273,7 +281,7 @@ theorem C17_other_channel (d : Dev) (devName : String) (leds : List String) (shi
   unfold highlight
   simp only [hown, hcur]
   have : (List.range 16).find? (fun c => lit (indexMap leds) m (fun (p : Nat × Nat) => baseOf p.2 (d.semitone + d.octave * 12))
-      (d.ext.filter (fun p => p.1 = c)) i) = some ch := by
+      (extOn d c (d.semitone + d.octave * 12)) i) = some ch := by
     rw [List.find?_eq_some_iff_append]
     refine ⟨hlit, List.range ch, (List.range (16 - ch - 1)).map (· + (ch + 1)), ?_, ?_⟩
     · have : 16 = ch + (1 + (16 - ch - 1)) := by omega
@@ -394,11 +402,11 @@ example : frame true exD "kbd" exLeds exShift =
     .ok [⟨0, 255, 0⟩, ⟨0, 0, 255⟩, white2, chanColor 2, ⟨9, 9, 9⟩, ⟨9, 9, 9⟩] := by decide
 example : Unlit (Dev.init exC) exLeds exM 1 := by
   refine ⟨by decide, ?_⟩
-  intro ch; simp [Dev.init, lit]
+  intro ch; simp [Dev.init, lit, extOn]
 /-- the hypotheses of `C17_pitch_class` hold for key A on the fresh device: its LED shows the C colour -/
 example : ∃ l, frame true (Dev.init exC) "kbd" exLeds exShift = .ok l ∧ l[1]? = some ⟨3, 3, 3⟩ :=
   C17_pitch_class (Dev.init exC) "kbd" exLeds exShift exM (by rfl) (by decide) (("", 30), ⟨60, 0⟩) (by decide) rfl 1
-    (by decide) (by refine ⟨by decide, ?_⟩; intro ch; simp [Dev.init, lit]) (by decide) (by decide)
+    (by decide) (by refine ⟨by decide, ?_⟩; intro ch; simp [Dev.init, lit, extOn]) (by decide) (by decide)
 
 /-- the hypotheses of `C17_action_key` hold for F1 (octave up) in the example state: `white2` at LED 2 -/
 example : ∃ l, frame true exD "kbd" exLeds exShift = .ok l ∧ l[2]? = some white2 :=
